@@ -26,7 +26,7 @@ REPO = os.environ.get('VERIF_REPO', '/repo')
 BUILD = os.path.join(ROOT, 'build')
 NCPU = min(16, os.cpu_count() or 4)
 
-PROP_BITS = ["C01", "C02", "C03", "C04", "C05", "C06", "C07", "C08", "C09", "C13", "C14", "C15", "C16", "C17"]
+PROP_BITS = ["C01", "C02", "C03", "C04", "C05", "C06", "C07", "C08", "C09", "C13", "C14", "C15", "C16", "C17", "C20"]
 
 # profiles (share of the budget) per property; the first is the property's own
 PROFILES = {
@@ -44,6 +44,7 @@ PROFILES = {
     'C15': [('reports', 5), ('seq', 2), ('forbid', 1), ('watched', 1), ('lifetime', 1)],
     'C16': [('okrep', 6), ('general', 2), ('forbid', 1), ('seq', 1)],
     'C17': [('trace', 7), ('clauses', 2), ('general', 1)],
+    'C20': [('coro', 1)],
 }
 
 BUDGET_S = {'quick': 30, 'thorough': 540}
@@ -64,6 +65,7 @@ NONTRIVIAL_RULE = {
     'C15': 'a run is non-trivial when at least one violation report was produced and checked',
     'C16': 'a run is non-trivial when it contains at least one mock call or a reporter replacement',
     'C17': 'a run is non-trivial when a call was made while a tracer was alive',
+    'C20': 'a run is non-trivial when at least one mocked coroutine call was accepted (its coroutine is then resumed in scheduler-chosen order)',
 }
 
 
@@ -396,8 +398,13 @@ def matches_known(k, prop, cls, ops):
     return True
 
 
+CURRENT_PROP = ''
+
+
 def crash_props(kind, frame, ffile):
     props = ['C14']
+    if CURRENT_PROP == 'C20':
+        props.append('C20')   # everything the coroutine world executes is C20's business
     if kind == 'terminate':
         # a conforming reporter that throws on fatal only was made to throw through a noexcept function (C15)
         props.append('C15')
@@ -592,11 +599,13 @@ def main():
     t_start = time.time()
     build()
     t_built = time.time()
-    binary = os.path.join(BUILD, 'simH')
+    binary = os.path.join(BUILD, 'simC' if prop == 'C20' else 'simH')
+    global CURRENT_PROP
+    CURRENT_PROP = prop
     budget = args.budget if args.budget is not None else BUDGET_S[tier]
     known = load_known()
     deny = []
-    deny_names = {'multi_monitor': '--no-multi-monitor', 'assign_watched': '--no-assign-watched', 'seq_destroy_live': '--no-seq-destroy-live'}
+    deny_names = {'multi_monitor': '--no-multi-monitor', 'assign_watched': '--no-assign-watched', 'seq_destroy_live': '--no-seq-destroy-live', 'lazy_params': '--no-lazy-params'}
     open_patterns = sorted({k['pattern'] for k in known if k.get('status') == 'open' and k.get('pattern') in deny_names})
     for pat in open_patterns:
         deny.append(deny_names[pat])
@@ -707,9 +716,10 @@ def main():
             path = os.path.join(outdir, 'crash-seed-%d-%s.replay' % (c['seed'], c['profile']))
             pl = subprocess.run([binary, 'plan', '--profile', c['profile'], '--seed', str(c['seed']), '--faults', str(c['faults'])] + deny, stdout=subprocess.PIPE, text=True).stdout
             dm = (1 if '--no-multi-monitor' in deny else 0) | (2 if '--no-assign-watched' in deny else 0) | (4 if '--no-seq-destroy-live' in deny else 0)
-            pl = re.sub(r'^(cfg \d+ \d+ \d+ \d+ \d+ \d+) \d+$', lambda m: m.group(1) + ' %d' % dm, pl, flags=re.M)
+            if prop != 'C20':
+                pl = re.sub(r'^(cfg \d+ \d+ \d+ \d+ \d+ \d+) \d+$', lambda m: m.group(1) + ' %d' % dm, pl, flags=re.M)
             with open(path, 'w') as f:
-                f.write('# trompeloeil deterministic-simulation replay file v1\nbinary simH\nprofile %s\nproperty %s\noracle %s\nviolation %s in %s (%s)\n' % (c['profile'], ','.join(crash_props(*c['crash'])), c['crash'][0], c['crash'][0], c['crash'][1], c['crash'][2]) + pl)
+                f.write('# trompeloeil deterministic-simulation replay file v1\nbinary ' + os.path.basename(binary) + '\nprofile %s\nproperty %s\noracle %s\nviolation %s in %s (%s)\n' % (c['profile'], ','.join(crash_props(*c['crash'])), c['crash'][0], c['crash'][0], c['crash'][1], c['crash'][2]) + pl)
             want = dict(kind='crash', crash=c['crash'], prop=prop)
         # gate 1: same seed again in fresh processes gives the same result twice
         r1 = replay(binary, path); r2 = replay(binary, path)
@@ -840,7 +850,7 @@ def main():
                          'the default get_lock() with its real std::recursive_mutex'],
                 'stand_in_user_side': ['mock classes', 'recording reporter / OK reporter (throws on fatal only)', 'recording tracers and one stream_tracer on a string stream', 'clause bodies (log, fault point)'],
             },
-            'binary': 'simH: clang++ -std=c++14 -O0 -fsanitize=address,undefined -DTROMPELOEIL_SANITY_CHECKS',
+            'binary': ('simC: clang++ -std=c++20 -O0 -fsanitize=address,undefined -DTROMPELOEIL_SANITY_CHECKS (coroutine world: mocked eager / lazy task types with and without parameters, 0-4 CO_YIELD, CO_RETURN / CO_THROW / throwing clause)' if prop == 'C20' else 'simH: clang++ -std=c++14 -O0 -fsanitize=address,undefined -DTROMPELOEIL_SANITY_CHECKS'),
             'include_hash': include_hash(),
             'build_s': round(t_built - t_start, 2),
         },
